@@ -230,8 +230,8 @@ impl Prop for C18 {
 	}
 	fn budget(&self, tier: Tier) -> (u64, u64) {
 		match tier {
-			Tier::Quick => (8_000, 60),
-			Tier::Thorough => (400_000, 900),
+			Tier::Quick => (30_000, 90),
+			Tier::Thorough => (600_000, 1200),
 		}
 	}
 
